@@ -404,6 +404,11 @@ pub fn maxes_to_json(st: &PushState) -> Value {
 /// Build a real state through the generated builder from spec vocabulary.
 /// `sv` = {exec,int,flt,bool} top first, `max` = {exec,int,flt,bool}, `inputs` = name -> literal.
 pub fn build_state(sv: &Value, max: &Value, inputs: &Value, limit: usize) -> Result<PushState, String> {
+    build_state_ordered(sv, max, inputs, limit, 0)
+}
+
+/// ... declaring the inputs in the `rotation`-th rotation of their name order.
+pub fn build_state_ordered(sv: &Value, max: &Value, inputs: &Value, limit: usize, rotation: usize) -> Result<PushState, String> {
     let m = |k: &str| max[k].as_u64().expect("max") as usize;
     let exec: Vec<PushProgram> = arr(&sv["exec"]).iter().map(item_from_json).collect();
     let ints: Vec<i64> = arr(&sv["int"]).iter().map(|v| phi_inv(i(v))).collect();
@@ -425,7 +430,15 @@ pub fn build_state(sv: &Value, max: &Value, inputs: &Value, limit: usize) -> Res
         .map_err(e)?
         .with_instruction_step_limit(limit);
     if let Some(obj) = inputs.as_object() {
-        for (name, lit) in obj {
+        let mut names: Vec<(&String, &Value)> = obj.iter().collect();
+        if !names.is_empty() {
+            let k = rotation % names.len();
+            names.rotate_left(k);
+            if rotation >= names.len() {
+                names.reverse();
+            }
+        }
+        for (name, lit) in names {
             b = match s(&lit["f"]) {
                 "int" => b.with_int_input(name, phi_inv(i(&lit["v"]))),
                 "flt" => b.with_float_input(name, OrderedFloat(psi_inv(&lit["v"]))),
